@@ -168,14 +168,12 @@ class CompartmentedEdgeLocus(CompartmentedLocus):
         :param g: the network
         :param n: the node'''
         for (nn, mm) in g.edges(n):
-            match = self.matches(g, nn, mm)
-            if match == -1:
-                #print('edge ({m}, {n}) leaves {l}'.format(n = nn, m = mm, l = self._name))
+            if self.matches(g, nn, mm) != 0:
+                # an edge whose endpoints match in both orientations may have
+                # been stored either way round, so discard both
+                #print('edge ({n}, {m}) leaves {l}'.format(n = nn, m = mm, l = self._name))
+                self.discard((nn, mm))
                 self.discard((mm, nn))
-            else:
-                if match == 1:
-                    #print('edge ({n}, {m}) leaves {l}'.format(n = nn, m = mm, l = self._name))
-                    self.discard((nn, mm))
 
 
     def enterHandler(self, g: Graph, n: Node):
@@ -203,14 +201,12 @@ class CompartmentedEdgeLocus(CompartmentedLocus):
         :param e: the edge'''
         if isinstance(e, tuple):
             (n, m) = e
-            match = self.matches(g, n, m)
-            if match == -1:
-                #print('edge ({m}, {n}) removed from {l}'.format(n = n, m = m, l = self._name))
+            if self.matches(g, n, m) != 0:
+                # an edge whose endpoints match in both orientations may have
+                # been stored either way round, so discard both
+                #print('edge ({n}, {m}) removed from {l}'.format(n = n, m = m, l = self._name))
+                self.discard((n, m))
                 self.discard((m, n))
-            else:
-                if match == 1:
-                    #print('edge ({n}, {m}) removed from {l}'.format(n = n, m = m, l = self._name))
-                    self.discard((n, m))
 
 
 class CompartmentedModel(Process):
